@@ -237,7 +237,7 @@ Definition field_wf (size : Z) (var : bool) (f : lfield) : Prop :=
   (if is_flex (lf_type f) then lf_off f <= size /\ var = true /\ lf_shift f < 0
    else lf_off f + lsize (lf_type f) <= size) /\
   (0 <= lf_shift f -> exists k s, lf_type f = LPrim k s) /\
-  (has_var (lf_type f) = true -> var = true).
+  (agg_var (lf_type f) = true -> var = true).
 
 Lemma wf_fields size var (fs : list (ltype * Z * Z * Z * Z)) :
   (fix all (fs : list (ltype * Z * Z * Z * Z)) : bool :=
@@ -248,7 +248,7 @@ Lemma wf_fields size var (fs : list (ltype * Z * Z * Z * Z)) :
          (if is_flex ft then (off <=? size) && var && (shift <? 0)
           else off + lsize ft <=? size) &&
          (if 0 <=? shift then match ft with LPrim _ _ => true | _ => false end else true) &&
-         (if has_var ft then var else true) &&
+         (if agg_var ft then var else true) &&
          all fs'
      end) fs = true ->
   Forall (field_wf size var) fs.
@@ -295,11 +295,11 @@ Definition need (fuel : nat) (t : ltype) (v : pyval) : res Z :=
   | _ => Ok (lsize t)
   end.
 
-Lemma need_nonvar fuel t v : has_var t = false -> need fuel t v = Ok (lsize t).
+Lemma need_nonvar fuel t v : agg_var t = false -> need fuel t v = Ok (lsize t).
 Proof. destruct t as [| |size var fs]; try reflexivity. cbn. intros ->. reflexivity. Qed.
 
 Definition P (fuel : nat) : Prop := forall t off v m n,
-  wf_type t = true -> no_var_items t = true -> 0 <= lsize t -> 0 <= off ->
+  wf_type t = true -> 0 <= lsize t -> 0 <= off ->
   need fuel t v = Ok n -> off + n <= mlen m -> safe (fill fuel t off v m) m.
 
 Lemma add_varsize_ok off isz len o o' :
@@ -309,9 +309,108 @@ Proof.
   intros E. inversion E. lia.
 Qed.
 
+Lemma list_mono (G : lfield -> pyval -> Z -> res Z) :
+  (forall f x o o2, G f x o = Ok o2 -> o <= o2) ->
+  forall l fs o n, struct_from_list G fs l o = Ok n -> o <= n.
+Proof.
+  intros HG. induction l as [|x l IH]; intros fs o n; cbn [struct_from_list].
+  - intros E. inversion E. lia.
+  - destruct (skip_ignored fs) as [|f fs2]; [discriminate|].
+    destruct (G f x o) as [o2|] eqn:E; cbn [bind]; [|discriminate].
+    intros Hs. apply HG in E. apply IH in Hs. lia.
+Qed.
+
+Lemma dict_mono (G : lfield -> pyval -> Z -> res Z) fs :
+  (forall f x o o2, G f x o = Ok o2 -> o <= o2) ->
+  forall kv o n, struct_from_dict G fs kv o = Ok n -> o <= n.
+Proof.
+  intros HG. induction kv as [|[k x] kv IH]; intros o n; cbn [struct_from_dict].
+  - intros E. inversion E. lia.
+  - destruct (if k <? 0 then None else nth_error fs (Z.to_nat k)) as [f|]; [|discriminate].
+    destruct (G f x o) as [o2|] eqn:E; cbn [bind]; [|discriminate].
+    intros Hs. apply HG in E. apply IH in Hs. lia.
+Qed.
+
+Lemma list_noseg (G : lfield -> pyval -> Z -> res Z) :
+  (forall f x o, G f x o <> Err SegV) ->
+  forall l fs o, struct_from_list G fs l o <> Err SegV.
+Proof.
+  intros HG. induction l as [|x l IH]; intros fs o; cbn [struct_from_list]; [discriminate|].
+  destruct (skip_ignored fs) as [|f fs2]; [discriminate|].
+  pose proof (HG f x o). destruct (G f x o) as [o2|e]; cbn [bind]; [apply IH|congruence].
+Qed.
+
+Lemma dict_noseg (G : lfield -> pyval -> Z -> res Z) fs :
+  (forall f x o, G f x o <> Err SegV) ->
+  forall kv o, struct_from_dict G fs kv o <> Err SegV.
+Proof.
+  intros HG. induction kv as [|[k x] kv IH]; intros o; cbn [struct_from_dict]; [discriminate|].
+  destruct (if k <? 0 then None else nth_error fs (Z.to_nat k)) as [f|]; [|discriminate].
+  pose proof (HG f x o). destruct (G f x o) as [o2|e]; cbn [bind]; [apply IH|congruence].
+Qed.
+
+Lemma add_varsize_noseg off isz len o : add_varsize_length off isz len o <> Err SegV.
+Proof. unfold add_varsize_length. destruct (SSIZE_MAX <? off + isz * len); discriminate. Qed.
+
+Lemma size_field_mono rec fld x o o2 : size_field rec fld x o = Ok o2 -> o <= o2.
+Proof.
+  unfold size_field. destruct (is_flex (lf_type fld)).
+  - destruct (get_new_array_length _ x); cbn [bind]; [|discriminate].
+    intros E. apply add_varsize_ok in E. lia.
+  - destruct (agg_var (lf_type fld) && negb (is_cdata x)).
+    + destruct (rec _ x _); cbn [bind]; [|discriminate].
+      intros E. apply add_varsize_ok in E. lia.
+    + intros E. inversion E. lia.
+Qed.
+
+Lemma size_struct_lower fuel fs v opt n : size_struct fuel fs v opt = Ok n -> opt <= n.
+Proof.
+  destruct fuel as [|f]; cbn [size_struct]; [discriminate|].
+  destruct v; try discriminate; cbn [struct_from_object].
+  - apply list_mono. intros fld x o o2. apply size_field_mono.
+  - apply dict_mono. intros fld x o o2. apply size_field_mono.
+Qed.
+
+(* the sizing pass writes nothing *)
+Lemma size_struct_noseg fuel : forall fs v opt, size_struct fuel fs v opt <> Err SegV.
+Proof.
+  induction fuel as [|f IH]; intros fs v opt; cbn [size_struct]; [discriminate|].
+  assert (HG : forall fld x o, size_field (size_struct f) fld x o <> Err SegV).
+  { intros fld x o. unfold size_field. destruct (is_flex (lf_type fld)).
+    - pose proof (gnal_err (lsize (item_of (lf_type fld))) x). destruct (get_new_array_length _ x) as [lb|e]; cbn [bind];
+        [apply add_varsize_noseg|]. intros E. inversion E. subst e. exact (H SegV eq_refl eq_refl).
+    - destruct (agg_var (lf_type fld) && negb (is_cdata x)); [|discriminate].
+      pose proof (IH (agg_fields (lf_type fld)) x (lsize (lf_type fld))).
+      destruct (size_struct f _ x _); cbn [bind]; [apply add_varsize_noseg|congruence]. }
+  destruct v; try discriminate; cbn [struct_from_object].
+  - apply list_noseg. exact HG.
+  - apply dict_noseg. exact HG.
+Qed.
+
+
+(* an array item behind the guard of convert_array_from_object: the sizing pass of the item's own
+   initialiser must not ask for more than ct_size, which is exactly what the item has *)
+Lemma guarded_item_safe f (IH : P f) item x off m :
+  wf_type item = true -> 0 < lsize item -> 0 <= off -> off + lsize item <= mlen m ->
+  safe (bind (item_guard f item x) (fun _ => fill f item off x m)) m.
+Proof.
+  intros Hwf Hsz Ho Hb. unfold item_guard.
+  destruct (agg_var item && negb (is_cdata x)) eqn:Eg; cbn [bind].
+  - rewrite andb_true_iff, negb_true_iff in Eg. destruct Eg as (Ev & Ec).
+    destruct item as [| |size var fs]; try discriminate. cbn in Ev. subst var. cbn [agg_fields lsize] in *.
+    pose proof (size_struct_noseg f fs x size) as Hns.
+    destruct (size_struct f fs x size) as [n|e] eqn:Es; cbn [bind]; [|apply safe_err; congruence].
+    destruct (Z.ltb_spec size n); cbn [bind]; [apply safe_err; discriminate|].
+    apply (IH (LAgg size true fs) off x m n); auto; try (cbn; lia).
+    cbn [need]. rewrite Ec. exact Es.
+  - apply (IH item off x m (lsize item)); auto; try lia.
+    destruct item as [| |size var fs]; try reflexivity. cbn [need lsize].
+    destruct var; [|reflexivity]. cbn in Eg. rewrite negb_false_iff in Eg. rewrite Eg. reflexivity.
+Qed.
+
 (* one field, given safety of the conversions at smaller fuel *)
 Lemma fill_field_safe f (IHf : forall f', (f' <= f)%nat -> P f') size var off m fld x :
-  field_wf size var fld -> no_var_items (lf_type fld) = true -> 0 <= off ->
+  field_wf size var fld -> 0 <= off ->
   (is_flex (lf_type fld) = true -> forall cap b,
      get_new_array_length (lsize (item_of (lf_type fld))) x = Ok (cap, b) -> 0 <= cap ->
      off + lf_off fld + lsize (item_of (lf_type fld)) * cap <= mlen m ->
@@ -320,7 +419,7 @@ Lemma fill_field_safe f (IHf : forall f', (f' <= f)%nat -> P f') size var off m 
      off + lf_off fld + n <= mlen m ->
      safe (fill_field (fill f) off fld x m) m).
 Proof.
-  intros (Hwf & Hoff & Hpl & Hbf & Hv) Hnv Ho. unfold fill_field. split.
+  intros (Hwf & Hoff & Hpl & Hbf & Hv) Ho. unfold fill_field. split.
   - intros Hfl cap b Hg Hcap Hb. rewrite Hfl in *. destruct Hpl as (_ & _ & Hsh).
     rewrite Hg. cbn [bind snd]. destruct b; [apply safe_ok|].
     destruct (Z.leb_spec 0 (lf_shift fld)); [lia|].
@@ -328,11 +427,9 @@ Proof.
     apply Z.ltb_lt in Hfl. cbn [item_of] in Hb.
     cbn [wf_type] in Hwf. rewrite !andb_true_iff in Hwf. destruct Hwf as ((Hwi & Hsz) & _).
     apply Z.ltb_lt in Hsz.
-    cbn [no_var_items] in Hnv. rewrite andb_true_iff, negb_true_iff in Hnv. destruct Hnv as (Hhv & Hni).
     destruct f as [|f1]; [apply safe_err; discriminate|]. cbn [fill].
     apply (fill_array_safe _ item len cap); try lia; eauto.
-    intros x' off' m' Ho' Hb'. apply (IHf f1 ltac:(lia) item off' x' m' (lsize item)); auto; try lia.
-    apply need_nonvar. exact Hhv.
+    intros x' off' m' Ho' Hb'. apply guarded_item_safe; auto; apply IHf; lia.
   - intros Hfl n Hn Hb. rewrite Hfl in *.
     assert (Hsz : 0 <= lsize (lf_type fld)) by (apply wf_nonflex_size; assumption).
     destruct (Z.leb_spec 0 (lf_shift fld)) as [Hs|Hs].
@@ -436,10 +533,10 @@ End JointLoops.
 Lemma P_all : forall N fuel, (fuel <= N)%nat -> P fuel.
 Proof.
   induction N as [|N IHN]; intros fuel Hf.
-  - assert (fuel = 0%nat) as -> by lia. intros t off v m n _ _ _ _ _ _. apply safe_err. discriminate.
-  - destruct fuel as [|f]; [intros t off v m n _ _ _ _ _ _; apply safe_err; discriminate|].
+  - assert (fuel = 0%nat) as -> by lia. intros t off v m n _ _ _ _ _. apply safe_err. discriminate.
+  - destruct fuel as [|f]; [intros t off v m n _ _ _ _ _; apply safe_err; discriminate|].
     assert (IHf : forall f', (f' <= f)%nat -> P f') by (intros; apply IHN; lia).
-    intros t off v m n Hwf Hnv Hsz Ho Hneed Hb.
+    intros t off v m n Hwf Hsz Ho Hneed Hb.
     destruct t as [k s|item len|size var fs]; cbn [fill].
     + (* primitive *)
       cbn in Hneed. inversion Hneed; subst n. cbn [wf_type] in Hwf. apply Z.ltb_lt in Hwf.
@@ -450,14 +547,12 @@ Proof.
       cbn [need lsize] in Hneed. destruct (Z.ltb_spec len 0); [lia|]. inversion Hneed; subst n.
       cbn [wf_type] in Hwf. rewrite !andb_true_iff in Hwf. destruct Hwf as ((Hwi & Hisz) & _).
       apply Z.ltb_lt in Hisz.
-      cbn [no_var_items] in Hnv. rewrite andb_true_iff, negb_true_iff in Hnv. destruct Hnv as (Hhv & Hni).
       apply (fill_array_safe _ item len len); try lia.
-      intros x' off' m' Ho' Hb'. apply (IHf f ltac:(lia) item off' x' m' (lsize item)); auto; try lia.
-      apply need_nonvar. exact Hhv.
+      intros x' off' m' Ho' Hb'. apply guarded_item_safe; auto; apply IHf; lia.
     + (* struct / union *)
       cbn [wf_type] in Hwf. rewrite andb_true_iff in Hwf. destruct Hwf as (Hs0 & Hfs).
-      apply Z.leb_le in Hs0. apply wf_fields in Hfs. cbn [no_var_items] in Hnv. apply nvi_fields in Hnv.
-      rewrite Forall_forall in Hfs, Hnv.
+      apply Z.leb_le in Hs0. apply wf_fields in Hfs.
+      rewrite Forall_forall in Hfs.
       assert (Hsize_n : size <= n).
       { cbn [need] in Hneed. destruct var; [|inversion Hneed; cbn; lia].
         destruct (is_cdata v); [inversion Hneed; lia|].
@@ -490,7 +585,7 @@ Proof.
            refine (proj2 (joint_list fs (size_field (size_struct f)) (fill_field (fill f) off) m off size _
                             l fs size m n (incl_refl _) (Z.le_refl _) eq_refl Hneed Hb)).
            intros fld x o o' m' Hin Hlo E.
-           destruct (fill_field_safe f IHf size true off m' fld x (Hfs fld Hin) (Hnv fld Hin) Ho) as (S1 & S2).
+           destruct (fill_field_safe f IHf size true off m' fld x (Hfs fld Hin) Ho) as (S1 & S2).
            pose proof (Hfs fld Hin) as (_ & Hoff & Hpl & _ & _).
            unfold size_field in E. destruct (is_flex (lf_type fld)) eqn:Efl.
            ++ destruct (get_new_array_length _ x) as [[cap b]|] eqn:Eg; cbn [bind fst] in E; [|discriminate].
@@ -512,10 +607,10 @@ Proof.
                  rewrite Eav. reflexivity.
         -- apply (simple_list fs (fill_field (fill f) off) m); [|apply incl_refl|reflexivity].
            intros fld x m' Hin Hm'. pose proof (Hfs fld Hin) as Hw. pose proof Hw as (_ & Hoff & Hpl & _ & Hhv).
-           destruct (fill_field_safe f IHf size false off m' fld x Hw (Hnv fld Hin) Ho) as (_ & S2).
+           destruct (fill_field_safe f IHf size false off m' fld x Hw Ho) as (_ & S2).
            destruct (is_flex (lf_type fld)) eqn:Efl; [destruct Hpl as (_ & Hc & _); discriminate|].
            apply (S2 eq_refl (lsize (lf_type fld))); [|lia].
-           apply need_nonvar. destruct (has_var (lf_type fld)); [discriminate (Hhv eq_refl)|reflexivity].
+           apply need_nonvar. destruct (agg_var (lf_type fld)); [discriminate (Hhv eq_refl)|reflexivity].
       * (* by name *)
         cbn [struct_from_object].
         destruct var.
@@ -523,7 +618,7 @@ Proof.
            refine (proj2 (joint_dict fs (size_field (size_struct f)) (fill_field (fill f) off) m off size _
                             kv size m n (Z.le_refl _) eq_refl Hneed Hb)).
            intros fld x o o' m' Hin Hlo E.
-           destruct (fill_field_safe f IHf size true off m' fld x (Hfs fld Hin) (Hnv fld Hin) Ho) as (S1 & S2).
+           destruct (fill_field_safe f IHf size true off m' fld x (Hfs fld Hin) Ho) as (S1 & S2).
            pose proof (Hfs fld Hin) as (_ & Hoff & Hpl & _ & _).
            unfold size_field in E. destruct (is_flex (lf_type fld)) eqn:Efl.
            ++ destruct (get_new_array_length _ x) as [[cap b]|] eqn:Eg; cbn [bind fst] in E; [|discriminate].
@@ -545,10 +640,10 @@ Proof.
                  rewrite Eav. reflexivity.
         -- apply (simple_dict fs (fill_field (fill f) off) m); [|reflexivity].
            intros fld x m' Hin Hm'. pose proof (Hfs fld Hin) as Hw. pose proof Hw as (_ & Hoff & Hpl & _ & Hhv).
-           destruct (fill_field_safe f IHf size false off m' fld x Hw (Hnv fld Hin) Ho) as (_ & S2).
+           destruct (fill_field_safe f IHf size false off m' fld x Hw Ho) as (_ & S2).
            destruct (is_flex (lf_type fld)) eqn:Efl; [destruct Hpl as (_ & Hc & _); discriminate|].
            apply (S2 eq_refl (lsize (lf_type fld))); [|lia].
-           apply need_nonvar. destruct (has_var (lf_type fld)); [discriminate (Hhv eq_refl)|reflexivity].
+           apply need_nonvar. destruct (agg_var (lf_type fld)); [discriminate (Hhv eq_refl)|reflexivity].
       * (* same-type struct cdata: memcpy of ct_size bytes *)
         destruct same; [|cbn [struct_from_object]; apply safe_err; discriminate].
         destruct (Z.leb_spec 0 size); [|apply safe_err; discriminate].
@@ -560,89 +655,11 @@ Qed.
 Lemma mlen_zeros n : mlen (zeros n) = Z.max 0 n.
 Proof. unfold mlen, zeros. rewrite repeat_length. lia. Qed.
 
-Lemma list_mono (G : lfield -> pyval -> Z -> res Z) :
-  (forall f x o o2, G f x o = Ok o2 -> o <= o2) ->
-  forall l fs o n, struct_from_list G fs l o = Ok n -> o <= n.
-Proof.
-  intros HG. induction l as [|x l IH]; intros fs o n; cbn [struct_from_list].
-  - intros E. inversion E. lia.
-  - destruct (skip_ignored fs) as [|f fs2]; [discriminate|].
-    destruct (G f x o) as [o2|] eqn:E; cbn [bind]; [|discriminate].
-    intros Hs. apply HG in E. apply IH in Hs. lia.
-Qed.
-
-Lemma dict_mono (G : lfield -> pyval -> Z -> res Z) fs :
-  (forall f x o o2, G f x o = Ok o2 -> o <= o2) ->
-  forall kv o n, struct_from_dict G fs kv o = Ok n -> o <= n.
-Proof.
-  intros HG. induction kv as [|[k x] kv IH]; intros o n; cbn [struct_from_dict].
-  - intros E. inversion E. lia.
-  - destruct (if k <? 0 then None else nth_error fs (Z.to_nat k)) as [f|]; [|discriminate].
-    destruct (G f x o) as [o2|] eqn:E; cbn [bind]; [|discriminate].
-    intros Hs. apply HG in E. apply IH in Hs. lia.
-Qed.
-
-Lemma list_noseg (G : lfield -> pyval -> Z -> res Z) :
-  (forall f x o, G f x o <> Err SegV) ->
-  forall l fs o, struct_from_list G fs l o <> Err SegV.
-Proof.
-  intros HG. induction l as [|x l IH]; intros fs o; cbn [struct_from_list]; [discriminate|].
-  destruct (skip_ignored fs) as [|f fs2]; [discriminate|].
-  pose proof (HG f x o). destruct (G f x o) as [o2|e]; cbn [bind]; [apply IH|congruence].
-Qed.
-
-Lemma dict_noseg (G : lfield -> pyval -> Z -> res Z) fs :
-  (forall f x o, G f x o <> Err SegV) ->
-  forall kv o, struct_from_dict G fs kv o <> Err SegV.
-Proof.
-  intros HG. induction kv as [|[k x] kv IH]; intros o; cbn [struct_from_dict]; [discriminate|].
-  destruct (if k <? 0 then None else nth_error fs (Z.to_nat k)) as [f|]; [|discriminate].
-  pose proof (HG f x o). destruct (G f x o) as [o2|e]; cbn [bind]; [apply IH|congruence].
-Qed.
-
-Lemma add_varsize_noseg off isz len o : add_varsize_length off isz len o <> Err SegV.
-Proof. unfold add_varsize_length. destruct (SSIZE_MAX <? off + isz * len); discriminate. Qed.
-
-Lemma size_field_mono rec fld x o o2 : size_field rec fld x o = Ok o2 -> o <= o2.
-Proof.
-  unfold size_field. destruct (is_flex (lf_type fld)).
-  - destruct (get_new_array_length _ x); cbn [bind]; [|discriminate].
-    intros E. apply add_varsize_ok in E. lia.
-  - destruct (agg_var (lf_type fld) && negb (is_cdata x)).
-    + destruct (rec _ x _); cbn [bind]; [|discriminate].
-      intros E. apply add_varsize_ok in E. lia.
-    + intros E. inversion E. lia.
-Qed.
-
-Lemma size_struct_lower fuel fs v opt n : size_struct fuel fs v opt = Ok n -> opt <= n.
-Proof.
-  destruct fuel as [|f]; cbn [size_struct]; [discriminate|].
-  destruct v; try discriminate; cbn [struct_from_object].
-  - apply list_mono. intros fld x o o2. apply size_field_mono.
-  - apply dict_mono. intros fld x o o2. apply size_field_mono.
-Qed.
-
-(* the sizing pass writes nothing *)
-Lemma size_struct_noseg fuel : forall fs v opt, size_struct fuel fs v opt <> Err SegV.
-Proof.
-  induction fuel as [|f IH]; intros fs v opt; cbn [size_struct]; [discriminate|].
-  assert (HG : forall fld x o, size_field (size_struct f) fld x o <> Err SegV).
-  { intros fld x o. unfold size_field. destruct (is_flex (lf_type fld)).
-    - pose proof (gnal_err (lsize (item_of (lf_type fld))) x). destruct (get_new_array_length _ x) as [lb|e]; cbn [bind];
-        [apply add_varsize_noseg|]. intros E. inversion E. subst e. exact (H SegV eq_refl eq_refl).
-    - destruct (agg_var (lf_type fld) && negb (is_cdata x)); [|discriminate].
-      pose proof (IH (agg_fields (lf_type fld)) x (lsize (lf_type fld))).
-      destruct (size_struct f _ x _); cbn [bind]; [apply add_varsize_noseg|congruence]. }
-  destruct v; try discriminate; cbn [struct_from_object].
-  - apply list_noseg. exact HG.
-  - apply dict_noseg. exact HG.
-Qed.
-
 (* ffi.new("T *", init) never writes outside the block it allocated *)
-Theorem new_ptr_safe fuel t init : wf_type t = true -> no_var_items t = true ->
+Theorem new_ptr_safe fuel t init : wf_type t = true ->
   new_bytes fuel (NewPtr t) init <> Err SegV.
 Proof.
-  intros Hwf Hnv. unfold new_bytes. cbn [alloc_size new_init new_target].
+  intros Hwf. unfold new_bytes. cbn [alloc_size new_init new_target].
   destruct (Z.ltb_spec (lsize t) 0) as [|Hsz]; [cbn; discriminate|].
   set (datasize := match t with LPrim KChar _ => lsize t * 2 | _ => lsize t end).
   assert (Hds : lsize t <= datasize) by (subst datasize; destruct t as [[] ?| |]; lia).
@@ -664,10 +681,7 @@ Proof.
   - cbn [bind]. destruct (MAX_ALLOC <? datasize); [discriminate|].
     destruct (match init with VNone => true | _ => false end) eqn:Hnone;
       [destruct init; try discriminate Hnone; discriminate|].
-    assert (Hhv : has_var t = false).
-    { destruct t as [| |size var fs]; [reflexivity| |].
-      - cbn [no_var_items] in Hnv. rewrite andb_true_iff, negb_true_iff in Hnv. cbn. tauto.
-      - cbn in *. destruct var; [|reflexivity]. discriminate Ev. }
+    assert (Hhv : agg_var t = false) by (destruct (agg_var t); [discriminate Ev|reflexivity]).
     assert (Hsafe : safe (fill fuel t 0 init (zeros datasize)) (zeros datasize)).
     { apply (P_all fuel fuel (le_n _) t 0 init (zeros datasize) (lsize t)); auto; try lia.
       - apply need_nonvar. exact Hhv.
@@ -677,14 +691,12 @@ Qed.
 
 (* ffi.new("T[len]", init) and ffi.new("T[]", init) *)
 Theorem new_arr_safe fuel item len init :
-  wf_type (LArr item len) = true -> no_var_items (LArr item len) = true ->
+  wf_type (LArr item len) = true ->
   new_bytes fuel (NewArr item len) init <> Err SegV.
 Proof.
-  intros Hwf Hnv. unfold new_bytes. cbn [alloc_size new_init new_target].
-  pose proof Hwf as Hwf'. cbn [wf_type] in Hwf'. rewrite !andb_true_iff in Hwf'.
-  destruct Hwf' as ((Hwi & Hisz) & Hlen). apply Z.ltb_lt in Hisz.
-  pose proof Hnv as Hnv'. cbn [no_var_items] in Hnv'. rewrite andb_true_iff, negb_true_iff in Hnv'.
-  destruct Hnv' as (Hhv & Hni).
+  intros Hwf. unfold new_bytes. cbn [alloc_size new_init new_target].
+  pose proof Hwf as Hwf2. cbn [wf_type] in Hwf2. rewrite !andb_true_iff in Hwf2.
+  destruct Hwf2 as ((Hwi & Hisz) & Hlen). apply Z.ltb_lt in Hisz.
   destruct (Z.ltb_spec len 0) as [Hneg|Hpos].
   - pose proof (gnal_err (lsize item) init) as Hge.
     destruct (get_new_array_length (lsize item) init) as [[cap b]|e] eqn:Eg; cbn [bind fst];
@@ -696,8 +708,7 @@ Proof.
     { destruct fuel as [|f]; [apply safe_err; discriminate|]. cbn [fill].
       apply (fill_array_safe _ item len cap); try lia; eauto.
       - rewrite mlen_zeros. nia.
-      - intros x off2 m2 Ho2 Hb2. apply (P_all f f (le_n _) item off2 x m2 (lsize item)); auto; try lia.
-        apply need_nonvar. exact Hhv. }
+      - intros x off2 m2 Ho2 Hb2. apply guarded_item_safe; auto. apply (P_all f f (le_n _)). }
     destruct init; try (exact (proj1 Hsafe)); discriminate.
   - cbn [bind]. destruct (MAX_ALLOC <? len * lsize item); [discriminate|].
     assert (Hsafe : safe (fill fuel (LArr item len) 0 init (zeros (len * lsize item))) (zeros (len * lsize item))).
@@ -709,8 +720,7 @@ Proof.
 Qed.
 
 Theorem sizing_dominates fuel T init :
-  wf_type (new_target T) = true -> no_var_items (new_target T) = true ->
-  new_bytes fuel T init <> Err SegV.
+  wf_type (new_target T) = true -> new_bytes fuel T init <> Err SegV.
 Proof.
   destruct T as [t|item len]; cbn [new_target]; [apply new_ptr_safe|apply new_arr_safe].
 Qed.
@@ -718,7 +728,7 @@ Qed.
 (* an assignment into a block that is large enough for the type stays inside it and keeps its
    size: the frame half of "zero except where init writes" (for types that are not var-sized) *)
 Theorem assign_safe fuel t off init m :
-  wf_type t = true -> no_var_items t = true -> has_var t = false -> 0 <= lsize t ->
+  wf_type t = true -> agg_var t = false -> 0 <= lsize t ->
   0 <= off -> off + lsize t <= mlen m ->
   safe (fill fuel t off init m) m.
 Proof.
